@@ -41,6 +41,10 @@ def run_one(lp, S, a):
             kind = a.get("fail_kind", "RuntimeError")
             if kind == "SystemExit": raise SystemExit(f"boom {x}")
             if kind == "BaseException": raise Boom(f"boom {x}")
+            # failures that carry no message at all (a bare `raise ValueError`, a failed `assert` without text, Ctrl-C)
+            if kind == "bare": raise ValueError
+            if kind == "assert": assert x is None
+            if kind == "KeyboardInterrupt": raise KeyboardInterrupt
             raise RuntimeError(f"boom {x}")
         return x * 10
     orig_get = None
@@ -70,7 +74,7 @@ def run_one(lp, S, a):
                         raise RuntimeError("consumer leaves")
         except S.Deadlock:
             status = "DEADLOCK"
-        except (RuntimeError, SystemExit, KeyboardInterrupt, GeneratorExit, Boom) as e:
+        except (RuntimeError, ValueError, AssertionError, SystemExit, KeyboardInterrupt, GeneratorExit, Boom) as e:
             status = "left" if str(e) == "consumer leaves" else "raised"
             res["exc"] = str(e)
         sch.finish()
@@ -169,7 +173,7 @@ def gen_cases(ctx):
             # failing inputs at sampled positions
             for i in sorted({0, n // 2, n - 1}) if n else []:
                 cases.append({"T": T, "n": n, "fail": [i], "seed": rng.randrange(1 << 30), "reuse": True,
-                              "fail_kind": ["RuntimeError", "SystemExit", "BaseException"][(T + n + i) % 3]})
+                              "fail_kind": ["RuntimeError", "SystemExit", "BaseException", "bare", "assert", "KeyboardInterrupt"][(T + n + i) % 6]})
             # the consumer leaves the `with` block by an exception of every kind (not only `break`)
             for j, lk in enumerate(["RuntimeError", "SystemExit", "KeyboardInterrupt", "GeneratorExit", "BaseException"]):
                 n = ns[(j + T) % len(ns)] or P + 1
@@ -197,7 +201,7 @@ def gen_cases(ctx):
                 c["stop_after"] = rng.randrange(1, n + 1)
                 c["leave_kind"] = rng.choice(["break", "break", "RuntimeError", "SystemExit", "KeyboardInterrupt", "GeneratorExit", "BaseException"])
             elif r < 0.6 and n:
-                c["fail"] = sorted({rng.randrange(n) for _ in range(rng.choice([1, 1, 2]))}); c["fail_kind"] = rng.choice(["RuntimeError", "SystemExit", "BaseException"])
+                c["fail"] = sorted({rng.randrange(n) for _ in range(rng.choice([1, 1, 2]))}); c["fail_kind"] = rng.choice(["RuntimeError", "SystemExit", "BaseException", "bare", "assert", "KeyboardInterrupt"])
             cases.append(c)
     return cases
 
